@@ -110,7 +110,14 @@ class C14:
                 size = rng.choice([None, 1, rng.randint(2, 9),
                                    [2, 3], [1, 4]])
                 script = None
-                if f6 and rng.random() < 0.6:
+                if f6 and rng.random() < 0.05:
+                    # a very long run of legal-but-unlucky draws: every slot
+                    # rejected for r rounds (rejection loops with round
+                    # limits or fallbacks live here)
+                    script = [{'slots': 'all', 'mode': rng.choice(
+                        ['below', 'above', 'far']),
+                        'repeat': rng.choice([300, 1001, 1500, 2500])}]
+                elif f6 and rng.random() < 0.6:
                     script = []
                     for _ in range(rng.randint(1, 8)):
                         script.append({
@@ -346,7 +353,8 @@ class C14:
             return
         size = ra.get('size')
         calls = (rec.get('extra') or {}).get('calls', [])
-        nscript = len(ra.get('script') or [])
+        nscript = sum(int(s_.get('repeat', 1))
+                      for s_ in (ra.get('script') or []))
         ex.stats['oracle_sim'] += 1
         consumed = nscript - int((rec.get('extra') or {}).get(
             'script_left', nscript))
